@@ -189,7 +189,7 @@ RW_STALLS = RT_STALLS + ["RW_HANDOFF"]
 
 
 def fb_plan(tier, seed, binary, sub, stalls, trials_q, trials_t, threads_q=(1, 2, 4, 16), threads_t=(1, 2, 3, 4, 8, 16), extra=None,
-            stall_every=5, tsan=False, pinned=True):
+            stall_every=5, tsan=False, pinned=True, tsan_judged=True):
     """generic plan for a fiber-runtime scenario family"""
     q = tier == "quick"
     extra = extra or {}
@@ -218,7 +218,11 @@ def fb_plan(tier, seed, binary, sub, stalls, trials_q, trials_t, threads_q=(1, 2
     if tsan:
         for thr in ((4,) if q else (2, 4, 8)):
             k += 1
-            runs.append(fb(binary, "tsan", sub, seed, k, thr, mode="monitor", trials=max(3, trials // 4), timeout=900, **extra))
+            r_ = fb(binary, "tsan", sub, seed, k, thr, mode="monitor", trials=max(3, trials // 4), timeout=900, **extra)
+            # payload visibility is a verdict only where the property statement promises it (C03, C11); elsewhere the
+            # reports are tallied in the evidence
+            r_.tsan_judged = tsan_judged
+            runs.append(r_)
     if pinned and not q:
         for thr in (4, 16):
             k += 1
@@ -241,7 +245,7 @@ def c03(tier, seed):
 
 
 def c05(tier, seed):
-    return dict(runs=fb_plan(tier, seed, "h_sync", "cond", COND_STALLS, 30, 200, tsan=True),
+    return dict(runs=fb_plan(tier, seed, "h_sync", "cond", COND_STALLS, 30, 200, tsan=True, tsan_judged=False),
                 rule=TRIAL_RULE + "Credit ledger under the user mutex: signal while a waiter is registered gives one credit, broadcast one per registered "
                 "waiter; every return from fiber_cond_wait must own the mutex and consume a credit; at the end credits==0 and nobody is blocked "
                 "(quiescence => lost signal). No predicate loops. distinct_nontrivial = distinct (waiters, signallers, waits, mode, window-hit) tuples.",
@@ -250,7 +254,7 @@ def c05(tier, seed):
 
 
 def c06(tier, seed):
-    runs06 = fb_plan(tier, seed, "h_sync", "sem", ["MAINT_PUBLISH", "MPMC_PUSH_MID", "WAIT_MPMC", "SWITCH_PRE", "SWITCH_POST", "SCHEDULED", "SEM_POST_MID"], 48, 200, tsan=True)
+    runs06 = fb_plan(tier, seed, "h_sync", "sem", ["MAINT_PUBLISH", "MPMC_PUSH_MID", "WAIT_MPMC", "SWITCH_PRE", "SWITCH_POST", "SCHEDULED", "SEM_POST_MID"], 48, 200, tsan=True, tsan_judged=False)
     for r in runs06:
         if r.variant == "tsan":
             r.args["mutexlike"] = 1
@@ -262,7 +266,7 @@ def c06(tier, seed):
 
 
 def c07(tier, seed):
-    return dict(runs=fb_plan(tier, seed, "h_sync", "rwlock", RW_STALLS, 45, 200, tsan=True),
+    return dict(runs=fb_plan(tier, seed, "h_sync", "rwlock", RW_STALLS, 45, 200, tsan=True, tsan_judged=False),
                 rule=TRIAL_RULE + "Oracles: writer alone (atomic occupancy of readers/writers on entry and exit), shared data unchanged during a read "
                 "section, try variants never context-switch, state word 0 at the end, stranded waiter at quiescence.",
                 min_events={"rw_read_sections_shared_with_other_readers": 10, "rw_write_sections": 50, "rw_trywr_fail": 1, "lib_wake_mpsc_spin_count": 1},
@@ -286,7 +290,7 @@ def c12(tier, seed):
 
 def c18(tier, seed):
     return dict(runs=fb_plan(tier, seed, "h_sync", "spin", ["SPIN_TICKET", "CPU_RELAX"], 20, 80, threads_q=(2, 4, 8), threads_t=(2, 3, 4, 8, 16),
-                             extra=dict(livelock_prop="C18", livelock_hits=2000000000000, iters=150, watchdog_s=300), stall_every=50, tsan=True),
+                             extra=dict(livelock_prop="C18", livelock_hits=2000000000000, iters=150, watchdog_s=300), stall_every=50, tsan=True, tsan_judged=False),
                 rule=TRIAL_RULE + "Spinlock used from fibers that never yield while holding it; counters preset just below 2^32. Oracles: occupancy, "
                 "now-serving values seen by holders are consecutive (mod 2^32) and equal the ticket taken, trylock neither spins nor switches, plain "
                 "payload (TSan), ticket==users at the end.",
